@@ -21,6 +21,9 @@ def run(ctx) -> None:
     rule_Q1(ctx)            # Timestamp / Duration fields round-trip only if the (seconds, nanos) split is exact
     rule_Q2(ctx)
     rule_Q6(ctx)            # every well-known-type / wrapper payload is decoded into a message of its own (parse() merges)
+    from .c14 import rule_V10
+    ctx.rules_run.append("V10")
+    rule_V10(ctx)           # parse(bytes(m)) == m is judged by __eq__: by the values alone, NaN pairs tolerated wherever they sit
     from . import varint
     ctx.rules_run.append("N7")
     varint.rule_N7(ctx)     # the buffer reader used for packed elements / nested messages accepts what the writer emits (10-byte varints)
